@@ -556,6 +556,12 @@ def run(F, R, tier):
         e, tr, fa = B.truth_edges(sb)
         if e[0] == "call" and q.ends(e[1], "is_none") and any(o[0] == "call" and "keyGuid" in o[3] for o in B.origins(e[2][0])):
             guards.append(("keyGuid.is_none", tr, fa))
+        if e[0] == "discr" and any(o[0] == "call" and o[3][-1:] == ("keyGuid",) and short(o[1]) == "get_status" for o in B.origins(e[1])):
+            # `match &status.keyGuid { None => .., Some(_) => .. }` spelling of the same test
+            none_e = [(sb, tg) for tg, lab in B.succ(sb) if lab == mir.STD_VARIANTS["None"]]
+            some_e = [(sb, tg) for tg, lab in B.succ(sb) if lab == mir.STD_VARIANTS["Some"] or lab == "otherwise"]
+            if none_e and some_e and not any(g[0] == "keyGuid.is_none" for g in guards):
+                guards.append(("keyGuid.is_none", none_e[0], some_e[0]))
         if e[0] == "call" and q.ends(e[1], "ne", "eq") and len(e[2]) == 2:
             srcs = set()
             for a in e[2]:
